@@ -6,6 +6,14 @@ mod drive;
 mod ops;
 pub mod progs;
 
+use star_frame::prelude::*;
+
+/// The crate's DECLARED program (`crate::StarFrameDeclaredProgram`): what a program-account
+/// declaration without a `program` argument refers to. Default `[u8; 8]` discriminant type.
+#[derive(StarFrameProgram)]
+#[program(instruction_set = (), id = Pubkey::new_from_array(progs::prog_id(0xD0)), no_entrypoint, skip_idl)]
+pub struct DeclProg;
+
 /// Cases of `/verif/corpus/<prop>/*.replay` (run first on every check).
 pub fn corpus_cases(prop: &str) -> Vec<Vec<String>> {
     let dir = std::path::PathBuf::from(std::env::var("VERIF_DIR").unwrap_or_else(|_| "/verif".into())).join("corpus").join(prop);
@@ -42,6 +50,11 @@ fn main() {
     match args.prop.as_str() {
         "C08" => c08::run(&args),
         "C15" => c15::run(&args),
+        "TYPES" => {
+            for e in ops::table() {
+                println!("{} {} {}", e.kind.name(), hx_common::hex(&e.prog_id), hx_common::hex(&e.disc));
+            }
+        }
         other => panic!("hx-progacct: unknown property {other}"),
     }
 }
